@@ -29,12 +29,13 @@ CLAIM = {
             "(attained and minimal). The model is tied to create_graph.py / graph_searches.py / networkx by an exact "
             "correspondence (edge multiset, nodes, components, unsupplied set, distances) evaluated inside Coq, where "
             "stability of every computed closure / relaxation is checked too.",
-    "note": "Refuted on the pinned tree (kept as _refuted/_partial pairs): a pi valve row yields an edge junction -> "
-            "pipe-label-read-as-junction; unsupplied_junctions only looks at ext grids (circulation-pump loops reported "
-            "unsupplied, t-only ext grids reported as supply); notravjunctions next to an out-of-service junction "
-            "leave the adjacency inconsistent (not modelled, reported by a monitor). Every topology query is also "
-            "checked to leave the user tables bit-identical. The solver's reachability is compared on real pipeflow runs (monitor), not through C04's Coq "
-            "model (position-based; no label-level Reach to import). Theorems closed under the global context.",
+    "note": "No clause is refuted on the current tree (515c489, bec5791, 190d51d repaired the pi-valve edge, the slack "
+            "set of unsupplied_junctions and the ignored compressor keywords; reverts are re-detected). One known finding "
+            "remains: notravjunctions next to an out-of-service junction leave the adjacency inconsistent (not modelled, "
+            "reported by a monitor). graph_components_eq_islands bridges this model's reachability to C04's HReach / "
+            "search_hyd under the side condition that every graph edge is an in-service, undirected, non "
+            "flow-return-connect branch of the pit; the solver is additionally compared on real pipeflow runs. Every "
+            "topology query is checked to leave the user tables bit-identical. Theorems closed under the global context.",
     "technique": "Coq proof over hand-written model + exact model/implementation correspondence + solver monitor",
     "design": "DESIGN.md 4/C18 + design_notes/C18.md",
 }
